@@ -47,6 +47,7 @@ SOURCES = [
     ("_incoming3", "agent (wave 3)", "confirm3", "mutant_results3.txt", "{name}-w3-{n}"),
     ("_incoming4", "agent (wave 4)", "confirm4", "mutant_results4.txt", "{name}-w4-{n}"),
     ("_incoming5", "agent (wave 5)", "confirm5", "mutant_results5.txt", "{name}-w5-{n}"),
+    ("_incoming6", "agent (wave 6)", "confirm6", "mutant_results6.txt", "{name}-w6-{n}"),
 ]
 for sub, author, confdir, detfile, fmt in SOURCES:
     conf = load_conf(confdir)
